@@ -223,6 +223,7 @@ class Projector:
         self.all_tasks = {}   # (o,k) -> Task
         self.with_queue = True
         self.proposals = []
+        self.alloc_time = {}
 
     def _collect_tasks(self):
         cl = self.sim.cluster._clusters["default"]
@@ -290,6 +291,9 @@ class Projector:
             live.append(rec)
         live.sort(key=lambda r: r["pid"])
         tasks = []
+        for key, t in self.all_tasks.items():
+            if key not in self.alloc_time and t.task_status.name != "UNSCHEDULED":
+                self.alloc_time[key] = ts(env.now)
         for (o, k), t in sorted(self.all_tasks.items()):
             am = t.allocated_machine_id
             am = str(getattr(am, "id", am)) if am is not None else ""
@@ -299,6 +303,7 @@ class Projector:
                 "aft": ts(t.aft) if t.aft != -1 else NONE_T,
                 "dur": int(t.duration), "flag": bool(t.delay_flag),
                 "pm": am, "doff": ts(t.delay_offset), "m": tp_m.get((o, k), ""),
+                "alloc": self.alloc_time.get((o, k), NONE_T),
             })
         obs = []
         for ob in sim.instrument.observations:
@@ -388,12 +393,12 @@ def row_view(df, i):
     return out
 
 
-def log_view(events_df, start=0):
+def log_view(events_df, start=0, ts=int):
     out = []
     if len(events_df) == 0:
         return out
     for i in range(start, len(events_df)):
         r = events_df.iloc[i]
-        out.append({"t": int(r["time"]), "a": str(r["actor"]), "o": str(r["observation"]),
+        out.append({"t": ts(r["time"]), "a": str(r["actor"]), "o": str(r["observation"]),
                     "r": str(r["resource"]), "e": str(r["event"])})
     return out
